@@ -65,6 +65,40 @@ theorem run_eq (f : Fill κ α) (hu : Unmetered f) (p : Prog κ α ρ) :
     simp only [run, v₁, v₂, c₁, c₂, List.nil_append]
     exact this
 
+/-- the program reads only keys in `S` -/
+inductive ReadsOnly (S : κ → Prop) : Prog κ α ρ → Prop where
+  | done (r : ρ) : ReadsOnly S (.done r)
+  | charge (c : Charge) (p : Prog κ α ρ) : ReadsOnly S p → ReadsOnly S (.charge c p)
+  | read (k : κ) (cont : α → Prog κ α ρ) : S k → (∀ a, ReadsOnly S (cont a)) → ReadsOnly S (.read k cont)
+
+theorem read_charges_at (f : Fill κ α) (t : Table κ α) (k : κ) (hu : f.fillCharges k = []) :
+    (t.read f k).2.2 = [] := by
+  unfold Table.read
+  cases hk : t k with
+  | none => exact hu
+  | some v => rfl
+
+/-- `run_eq` for programs that only read cells whose fill path is unmetered; other cells may meter -/
+theorem run_eq_on (f : Fill κ α) (S : κ → Prop) (hu : ∀ k, S k → f.fillCharges k = []) (p : Prog κ α ρ)
+    (hp : ReadsOnly S p) :
+    ∀ t₁ t₂, Consistent f t₁ → Consistent f t₂ →
+      (run f p t₁).charges = (run f p t₂).charges ∧ (run f p t₁).result = (run f p t₂).result := by
+  induction hp with
+  | done r => intro t₁ t₂ _ _; exact ⟨rfl, rfl⟩
+  | charge c p _ ih =>
+    intro t₁ t₂ h₁ h₂
+    have := ih t₁ t₂ h₁ h₂
+    exact ⟨by simp [run, this.1], this.2⟩
+  | read k cont hk _ ih =>
+    intro t₁ t₂ h₁ h₂
+    have v₁ := read_value f t₁ k h₁
+    have v₂ := read_value f t₂ k h₂
+    have c₁ := read_charges_at f t₁ k (hu k hk)
+    have c₂ := read_charges_at f t₂ k (hu k hk)
+    have := ih (f.init k) _ _ (read_consistent f t₁ k h₁) (read_consistent f t₂ k h₂)
+    simp only [run, v₁, v₂, c₁, c₂, List.nil_append]
+    exact this
+
 theorem after_consistent (f : Fill κ α) (qs : List (Prog κ α ρ)) :
     ∀ t, Consistent f t → Consistent f (after f qs t) := by
   induction qs with
